@@ -67,6 +67,9 @@ class InfoFilePersister:
             except OSError as e:
                 if e.errno == errno.ENAMETOOLONG:
                     name_too_long = True
+                elif e.errno not in (errno.EEXIST, None):
+                    # only a taken name is worth another attempt
+                    raise
                 yield NeedsMoreAttempts(trashinfo_path,
                                         "attempt for creating %s failed." % trashinfo_path)
 
